@@ -18,7 +18,15 @@ prev/curr; no path listed twice; a removed node precedes and an added node follo
 parent's own entry, the parent being listed; consuming ``nodes()`` in order with shallow steps
 (rmdir needs an empty dir, mkdir needs an existing parent) is never refused and turns prev
 into curr (in memory for every case; on a real directory with os.rmdir/os.mkdir for a sample,
-where ``annotate`` is checked too); ``get(p)`` is the listed node with path p, else None.
+where ``annotate`` is checked too); ``get(p)`` is the listed node with path p, else None, and
+its status is "unchanged" exactly where the two snapshots agree (absent paths included).
+
+Theorems (coq/Properties/C18.v, all closed under the global context): C18_compare_none_iff,
+C18_reported_iff (sound + complete listing, status/prev/curr, no duplicates), C18_order_safe
+(parent listed; removed before / added after it, as list positions), C18_get_agrees,
+C18_script_correct (consuming the listing with shallow steps is never refused and yields curr).
+Every quantity these speak about is compared here: is_empty, the ordered node list with
+path/status/prev/curr, get+status on present and absent paths, the consumed script.
 """
 from __future__ import annotations
 
@@ -332,6 +340,14 @@ def oracle(prev: Tree, curr: Tree, queries) -> Tuple[Any, List[str]]:
         want = listed.get(tuple(q))
         if got is not want and not (got is not None and want is not None and got == want):
             problems.append(f"get({'/'.join(q) or '.'}) disagrees with the listing")
+        # ... and, directly, with the two snapshots (C18_get_agrees: None exactly where they agree,
+        # absent paths included; otherwise the node of that path with the old and new entry)
+        qa, qb = sub(prev, q), sub(curr, q)
+        want_st = "0" if qa == qb else "+" if qa is None else "-" if qb is None else "~"
+        if str(dd.status(got).value) != want_st:
+            problems.append(f"get({'/'.join(q) or '.'}) has status {dd.status(got).value}, expected {want_st}")
+        elif got is not None and (tuple(got.path.parts) != tuple(q) or got.prev != qa or got.curr != qb):
+            problems.append(f"get({'/'.join(q) or '.'}) is not the node of that path with the old/new entries")
         if len(q) % 2 == 1:   # also the str form of the argument
             got2 = dd.get("/".join(q))
             if (got2 is None) != (got is None):
